@@ -1,6 +1,6 @@
 (* Entry points evaluated by the correspondence harness (props/C03.py): the concrete worlds of the
    fault model (base kind x vanish index x denied indexes), rendering of access logs, outcomes. *)
-From PV Require Export Base.Prelude C03.Model C03.Spec C03.Guard.
+From PV Require Export Base.Prelude C03.Model C03.Spec C03.Guard C03.Native.
 Local Open Scope string_scope.
 Local Open Scope list_scope.
 Local Notation "a +++ b" := (String.append a b) (at level 60, right associativity).
